@@ -275,9 +275,16 @@ func execRun(bin, prop string, seed uint64, tier string, replay string, gmp int,
 	if replay != "" {
 		args = append(args, "-replay", replay)
 	}
-	args = append(args, extra...)
+	rg := realGMP
+	for _, e := range extra {
+		if strings.HasPrefix(e, "ENV:GOMAXPROCS=") { // determinism self-test: vary the real GOMAXPROCS per repetition
+			rg = strings.TrimPrefix(e, "ENV:GOMAXPROCS=")
+		} else {
+			args = append(args, e)
+		}
+	}
 	cmd := exec.Command(bin, args...)
-	cmd.Env = append(os.Environ(), "SIMRT_GOMAXPROCS="+strconv.Itoa(gmp), "GOMAXPROCS="+realGMP, "GORACE=halt_on_error=0 log_path=stdout", "TMPDIR="+runTmp())
+	cmd.Env = append(os.Environ(), "SIMRT_GOMAXPROCS="+strconv.Itoa(gmp), "GOMAXPROCS="+rg, "GORACE=halt_on_error=0 log_path=stdout", "TMPDIR="+runTmp())
 	var out bytes.Buffer
 	cmd.Stdout = &out
 	cmd.Stderr = &out
@@ -917,7 +924,12 @@ func determinism(ids []string, seeds, reps int) int {
 				go func(seed uint64, rep int) {
 					defer wg.Done()
 					defer func() { <-sem }()
-					r, err := execRun(bin, id, seed, "quick", "", gmpFor(seed))
+					// repetitions of one seed run under different real GOMAXPROCS values (1, 4, 16, ...)
+					rg := []string{"1", "4", "16", "2"}[rep%4]
+					if os.Getenv("VERIF_REAL_GOMAXPROCS") != "" {
+						rg = realGMP
+					}
+					r, err := execRun(bin, id, seed, "quick", "", gmpFor(seed), "ENV:GOMAXPROCS="+rg)
 					key := "ERR"
 					if err == nil {
 						key = r.LogHash + "/" + r.Verdict + "/" + r.Sig + "/" + strconv.Itoa(r.Steps)
